@@ -176,7 +176,8 @@ def runDwt (op : String) (ps : List Int) (ts : List (Option (T α))) : Res α :=
   | "sfb2d_nonsep", [m], [some gc0, some gc1, some gr0, some gr1, some co] =>
     match modeOfInt m with
     | some m => resOfOpt do
-        let y ← co.l5.mapM fun item => item.mapM (sfb2dNonsepCh m gc0.l1 gc1.l1 gr0.l1 gr1.l1)
+        let dense := co.shape.getD 0 0 * co.shape.getD 1 0 == 1
+        let y ← co.l5.mapM fun item => item.mapM (sfb2dNonsepCh m dense gc0.l1 gc1.l1 gr0.l1 gr1.l1)
         some [some (ofL4 y)]
     | _ => .bad
   /- specification ops (one signal / one image) -/
